@@ -3,7 +3,7 @@
 //! outside the target changes.  Fonts: built by recipe, loaded and edited, loaded from crafted
 //! UFOs whose contents.plist / layercontents.plist hold unusual paths.
 use crate::c08::common::*;
-use crate::c08::{fresh_sandbox, make_prior, modify, prepare_loaded, prior_for, run_save, Prepared, Prior};
+use crate::c08::{fresh_sandbox, make_prior, modify, prepare_loaded, prior_for, run_save, try_store_keys, Prepared, Prior};
 use crate::util::*;
 use norad::{DataRequest, Font};
 use std::collections::BTreeSet;
@@ -122,6 +122,23 @@ pub fn write_crafted(sb: &Path, variant: u64, r: &mut Rng) -> (String, bool) {
             std::fs::write(src.join("glyphs.bg/cross.glif"), glif("cross", 8)).unwrap();
             desc = "glif path ../glyphs.bg/cross.glif";
         }
+        12 => {
+            // two layer directories that differ only by case (refused since f6784f0)
+            layers.push(("up".into(), "glyphs.A_".into()));
+            layers.push(("lo".into(), "glyphs.a_".into()));
+            for d in ["glyphs.A_", "glyphs.a_"] {
+                std::fs::create_dir_all(src.join(d)).unwrap();
+                std::fs::write(src.join(d).join("contents.plist"), plist_dict(&[])).unwrap();
+            }
+            desc = "layer directories glyphs.A_ and glyphs.a_";
+        }
+        13 => {
+            contents.push(("X".into(), "X.glif".into()));
+            contents.push(("x".into(), "x.glif".into()));
+            std::fs::write(src.join("glyphs/X.glif"), glif("X", 11)).unwrap();
+            std::fs::write(src.join("glyphs/x.glif"), glif("x", 12)).unwrap();
+            desc = "glif files X.glif and x.glif";
+        }
         _ => {
             layers.push(("img".into(), "images".into()));
             std::fs::create_dir_all(src.join("images")).unwrap();
@@ -135,7 +152,7 @@ pub fn write_crafted(sb: &Path, variant: u64, r: &mut Rng) -> (String, bool) {
         contents.push(("z".into(), "z_.glif".into()));
         std::fs::write(src.join("glyphs/z_.glif"), glif("z", 9)).unwrap();
     }
-    if r.chance(1, 2) && variant != 4 && variant != 5 && variant < 11 {
+    if r.chance(1, 2) && variant != 4 && variant != 5 && variant != 11 {
         std::fs::create_dir_all(src.join("data/k")).unwrap();
         std::fs::write(src.join("data/k/v.bin"), b"v").unwrap();
     }
@@ -143,7 +160,7 @@ pub fn write_crafted(sb: &Path, variant: u64, r: &mut Rng) -> (String, bool) {
     std::fs::write(src.join("layercontents.plist"), plist_pairs(&layers)).unwrap();
     (desc.to_string(), with_data)
 }
-pub const N_CRAFTED: u64 = 12;
+pub const N_CRAFTED: u64 = 14;
 
 pub fn prepare_crafted(sb: &Path, variant: u64, r: &mut Rng) -> Option<Prepared> {
     let (desc, with_data) = write_crafted(sb, variant, r);
@@ -261,6 +278,7 @@ pub fn case(seed: u64, idx: u64, out: &Path, verbose: bool, force_variant: Optio
     if kind == 2 && r.chance(1, 3) {
         modify(&mut p, &mut r);
     }
+    try_store_keys(&mut p, &mut r);
     let in_place = p.loaded_from.is_some() && r.chance(1, 3);
     let prior = if in_place { Prior::Absent } else { prior_for(idx / 3) };
     let target_rel: Vec<String> = if in_place { split_rel("src.ufo") } else { split_rel("zone/t.ufo") };
